@@ -7,7 +7,12 @@
 package main
 
 import (
+	"bytes"
+	"io"
+	"reflect"
+
 	"fmt"
+	"github.com/fxamacker/cbor/v2"
 	"sort"
 	"strings"
 	"time"
@@ -35,6 +40,7 @@ type scenario struct {
 	Runs      []runSpec // issued concurrently
 	Later     bool      // one more Execute after the first group returned ("pending or later Execute")
 	WriteSide bool      // enumerate write-side failures instead of read-side faults
+	Flip      bool      // enumerate single flipped bytes instead of EOF / error / garbage
 	StreamLen int       // healthy server->client transcript length (measured)
 	Writes    int       // healthy number of client writes (measured)
 }
@@ -53,6 +59,14 @@ func scenarios(tier string) []scenario {
 		{Name: "v3-1run-writefail", Runs: []runSpec{{RunID: "r1", ToStep: 1}}, WriteSide: true, Later: true},
 		{Name: "v3-2runs-writefail", Runs: []runSpec{r("r1"), r("r2")}, WriteSide: true},
 		{Name: "v1-1run-writefail", V1: true, Runs: []runSpec{r("v1")}, WriteSide: true},
+	}
+	// single-flipped-byte twins of the read-side scenarios
+	for _, b := range s {
+		if !b.WriteSide && b.Hello == "" {
+			f := b
+			f.Name, f.Flip = b.Name+"-flip", true
+			s = append(s, f)
+		}
 	}
 	if tier == "thorough" {
 		s = append(s,
@@ -79,6 +93,78 @@ type obs struct {
 	faulty    bool
 	failWrite int
 	persist   bool
+	mask      byte
+}
+
+// single-byte corruptions: low bit (neighbouring letter / digit / length), case bit, high bit (invalid UTF-8 / other major type)
+var flipMasks = []byte{0x01, 0x20, 0x80}
+
+var strictDec = func() cbor.DecMode {
+	m, err := cbor.DecOptions{ExtraReturnErrors: cbor.ExtraDecErrorUnknownField}.DecMode()
+	if err != nil {
+		panic(err)
+	}
+	return m
+}()
+
+// refDecode reads the delivered server->client bytes with an independent strict decoder (the options ATP
+// documents for the client): which runs' work-done messages are decodable, and whether the stream is
+// definitely malformed (as opposed to merely incomplete).
+func refDecode(delivered []byte, v1 bool) (done map[string]atp.WorkDoneMessage, helloOK bool, malformed bool) {
+	done = map[string]atp.WorkDoneMessage{}
+	dec := strictDec.NewDecoder(bytes.NewReader(delivered))
+	var h atp.HelloMessage
+	if err := dec.Decode(&h); err != nil {
+		return done, false, !isIncomplete(err)
+	}
+	helloOK = h.Version == 1 || h.Version == 3
+	if h.Version == 1 {
+		var d atp.WorkDoneMessage
+		if err := dec.Decode(&d); err != nil {
+			return done, helloOK, !isIncomplete(err)
+		}
+		done["v1"] = d
+		return done, helloOK, false
+	}
+	for {
+		var m atp.DecodedRuntimeMessage
+		if err := dec.Decode(&m); err != nil {
+			return done, helloOK, !isIncomplete(err)
+		}
+		if m.MessageID == atp.MessageTypeWorkDone {
+			var d atp.WorkDoneMessage
+			if err := strictDec.Unmarshal(m.RawMessageData, &d); err != nil {
+				// the envelope decoded, the payload did not: this run cannot be answered from it, the stream goes on
+				continue
+			}
+			if _, dup := done[m.RunID]; !dup {
+				done[m.RunID] = d
+			}
+		}
+	}
+}
+
+// decodeDone strictly decodes one message as the work-done message of the given run.
+func decodeDone(b []byte, run string, v1 bool) (atp.WorkDoneMessage, bool) {
+	var d atp.WorkDoneMessage
+	if v1 {
+		if err := strictDec.Unmarshal(b, &d); err != nil {
+			return d, false
+		}
+		return d, true
+	}
+	var m atp.DecodedRuntimeMessage
+	if err := strictDec.Unmarshal(b, &m); err != nil || m.MessageID != atp.MessageTypeWorkDone || m.RunID != run {
+		return d, false
+	}
+	if err := strictDec.Unmarshal(m.RawMessageData, &d); err != nil {
+		return d, false
+	}
+	return d, true
+}
+
+func isIncomplete(err error) bool {
+	return err == io.EOF || err == io.ErrUnexpectedEOF
 }
 
 var cur *obs
@@ -109,11 +195,18 @@ func body(sc *scenario, measure bool) func() {
 					c2s.FailWriteAt, c2s.FailPersist = o.failWrite, o.persist
 				}
 			} else {
-				// k in [0, StreamLen] x {eof, err, garbage}; k == StreamLen with eof/err = fault right after the last byte
-				c := mcrt.Choose(3*(sc.StreamLen+1), "read fault")
+				// k in [0, StreamLen] x {eof, err, garbage}; k == StreamLen with eof/err = fault right after the last byte;
+				// then k in [0, StreamLen) x single-byte flips with each mask
 				o.faulty = true
-				o.faultAt, o.faultKind = c/3, mcrt.FaultKind(c%3)
-				s2c.ReadFault = &mcrt.Fault{At: o.faultAt, Kind: o.faultKind}
+				if !sc.Flip {
+					c := mcrt.Choose(3*(sc.StreamLen+1), "read fault")
+					o.faultAt, o.faultKind = c/3, mcrt.FaultKind(c%3)
+					s2c.ReadFault = &mcrt.Fault{At: o.faultAt, Kind: o.faultKind}
+				} else {
+					c := mcrt.Choose(len(flipMasks)*sc.StreamLen, "flipped byte")
+					o.faultAt, o.faultKind, o.mask = c/len(flipMasks), mcrt.FaultFlip, flipMasks[c%len(flipMasks)]
+					s2c.ReadFault = &mcrt.Fault{At: o.faultAt, Kind: mcrt.FaultFlip, Mask: o.mask}
+				}
 			}
 		}
 		hello := helloOK
@@ -189,6 +282,8 @@ func judge(sc *scenario, r *mcrt.Result) (string, []mc.Finding) {
 		if o != nil && o.faulty {
 			if sc.WriteSide {
 				detail = fmt.Sprintf("client write #%d fails (persistent=%v)\n%s", o.failWrite, o.persist, detail)
+			} else if o.faultKind == mcrt.FaultFlip {
+				detail = fmt.Sprintf("byte %d of the server->client stream XOR 0x%02x (healthy length %d)\n%s", o.faultAt, o.mask, sc.StreamLen, detail)
 			} else {
 				detail = fmt.Sprintf("fault %s at byte %d of the server->client stream (healthy length %d)\n%s", o.faultKind, o.faultAt, sc.StreamLen, detail)
 			}
@@ -209,7 +304,14 @@ func judge(sc *scenario, r *mcrt.Result) (string, []mc.Finding) {
 			pat = append(pat, fmt.Sprintf("%s@%s[%s]", role(b.Name), b.Op, lastFn(b.Where)))
 		}
 		sort.Strings(pat)
-		if len(pat) > 0 {
+		flipUndetectable := false
+		if o != nil && o.faulty && !sc.WriteSide && o.faultKind == mcrt.FaultFlip {
+			// a single flipped byte can leave a well-formed stream (another run id, a longer length prefix that makes
+			// the decoder wait for bytes that never come): no decoder can tell, so no claim is made about waiting
+			_, _, malformed := refDecode(o.s2c.Delivered, sc.V1)
+			flipUndetectable = !malformed
+		}
+		if len(pat) > 0 && !flipUndetectable {
 			kind := "caller never returns"
 			if r.MainDone {
 				kind = "client threads left blocked after Close"
@@ -225,14 +327,35 @@ func judge(sc *scenario, r *mcrt.Result) (string, []mc.Finding) {
 		hit = o.s2c.ReadFault != nil && faultReached(o)
 	}
 	if r.Status == mcrt.StComplete || r.MainDone {
-		if sc.Hello != "" && o.schemaOK {
+		if sc.Hello != "" && o.schemaOK && !(o.faulty && o.faultKind == mcrt.FaultFlip) {
 			add("ReadSchema accepted an unusable hello", sc.Hello)
 		}
 		// which runs' work-done messages reached the client intact?
 		intact := map[string]bool{}
-		for _, m := range o.peer.Sent {
-			if m.Kind == "done" && m.End > 0 && (sc.WriteSide || !o.faulty || m.End <= o.faultAt) {
-				intact[m.RunID] = true
+		var refDone map[string]atp.WorkDoneMessage
+		if o.faulty && !sc.WriteSide && o.faultKind == mcrt.FaultFlip {
+			// a run's work-done message is intact if the bytes the peer wrote for it, as delivered (i.e. with the flipped
+			// byte if it lies inside), decode with an independent strict decoder to a work-done message for that run
+			refDone = map[string]atp.WorkDoneMessage{}
+			start := 0
+			for _, m := range o.peer.Sent {
+				end := m.End
+				if end == 0 {
+					continue
+				}
+				if m.Kind == "done" && end <= len(o.s2c.Delivered) {
+					if d, ok := decodeDone(o.s2c.Delivered[start:end], m.RunID, sc.V1); ok {
+						refDone[m.RunID] = d
+						intact[m.RunID] = true
+					}
+				}
+				start = end
+			}
+		} else {
+			for _, m := range o.peer.Sent {
+				if m.Kind == "done" && m.End > 0 && (sc.WriteSide || !o.faulty || m.End <= o.faultAt) {
+					intact[m.RunID] = true
+				}
 			}
 		}
 		ids := make([]string, 0, len(o.results))
@@ -248,12 +371,17 @@ func judge(sc *scenario, r *mcrt.Result) (string, []mc.Finding) {
 			if res.Error == nil {
 				if !intact[id] {
 					add("Execute reported success although its work-done message did not arrive intact", fmt.Sprintf("run %s -> output id %q data %v", id, res.OutputID, res.OutputData))
+				} else if refDone != nil {
+					// flipped byte: the payload must be what an independent strict decoder reads from the delivered bytes
+					if d := refDone[id]; d.OutputID != res.OutputID || !reflect.DeepEqual(d.OutputData, res.OutputData) {
+						add("Execute reported success with a payload that is not in its run's delivered work-done message", fmt.Sprintf("run %s -> (%q, %v); delivered message decodes to (%q, %v)", id, res.OutputID, res.OutputData, d.OutputID, d.OutputData))
+					}
 				} else if !payloadOK(id, res) {
 					add("Execute reported success with a payload that is not its run's", fmt.Sprintf("run %s -> output id %q data %v", id, res.OutputID, res.OutputData))
 				}
 			}
 		}
-		if !o.faulty || (!sc.WriteSide && !hit) {
+		if !o.faulty || (!sc.WriteSide && !hit && o.faultKind != mcrt.FaultFlip) {
 			// fault never reached: behave as on a healthy connection
 			for _, x := range sc.Runs {
 				if res := o.results[x.RunID]; sc.Hello == "" && res != nil && res.Error != nil && !x.StepFatal {
@@ -281,6 +409,9 @@ func judge(sc *scenario, r *mcrt.Result) (string, []mc.Finding) {
 
 func faultReached(o *obs) bool {
 	f := o.s2c.ReadFault
+	if f.Kind == mcrt.FaultFlip {
+		return o.s2c.FaultHit()
+	}
 	if f.Kind == mcrt.FaultGarbage {
 		return len(o.s2c.Delivered) > f.At
 	}
@@ -335,7 +466,9 @@ func main() {
 				measure(&s)
 				scs[s.Name] = &s
 				levels := []mc.Bounds{{Preempt: 0, Delay: 0}, {Preempt: 1, Delay: 1}}
-				if tier == "thorough" || len(s.Runs) <= 1 {
+				if s.Flip && tier != "thorough" {
+					levels = levels[:2]
+				} else if tier == "thorough" || len(s.Runs) <= 1 {
 					levels = append(levels, mc.Bounds{Preempt: 2, Delay: 2})
 				}
 				if tier == "thorough" && len(s.Runs) <= 2 {
@@ -353,10 +486,11 @@ func main() {
 			}
 			return 150 * time.Second
 		},
-		Rule: "for every scenario: every byte offset k of the healthy server->client transcript (hello included) x {EOF, read error, 0xFF garbage from k on}, or every client write index x {fails once, fails from then on}, chosen as a free environment choice; for each, every thread schedule within the delay bound; distinct = distinct (scenario, outcome) pairs",
+		Rule: "for every scenario: every byte offset k of the healthy server->client transcript (hello included) x {EOF, read error, 0xFF garbage from k on, byte k XOR 0x01 / 0x20 / 0x80}, or every client write index x {fails once, fails from then on}, chosen as a free environment choice; for each, every thread schedule within the delay bound; distinct = distinct (scenario, outcome) pairs",
 		Assumptions: []string{
 			"peer is causally correct and keeps running after the fault (the stream is broken, not the plugin)",
 			"garbage = every byte from k on replaced by 0xFF, which can never decode as a well-formed ATP message (break code / invalid UTF-8), so no message at or after k is 'intact'",
+			"single flipped byte: success may only be reported for a run whose work-done message an independent strict decoder (ATP's documented client options) reads from the delivered bytes, with exactly that payload; waiting forever is only a violation if the delivered stream is definitely malformed (not merely incomplete or altered but well-formed)",
 			"after the client's Close the peer process is gone: its output is closed and the client's write end is released",
 			"timers are virtual and fire only when no thread is enabled",
 		},
